@@ -318,6 +318,7 @@ func (c *Ctx) loopBoundRule(rule string, fns []*ssa.Function) {
 						continue
 					}
 					origin, bits, decoded := c.decodedOrigin(side, fwd, cache)
+					carrier := c.lastCarrier
 					if !decoded {
 						continue
 					}
@@ -334,7 +335,10 @@ func (c *Ctx) loopBoundRule(rule string, fns []*ssa.Function) {
 						c.S.OK(rule, construct, c.pos(iff.Pos()), "decoded 64-bit bound is checked against a length/constant before the loop", true)
 						continue
 					}
-					c.S.Bad(rule, construct, c.pos(iff.Pos()), fmt.Sprintf("a loop that hashes or allocates runs up to a 64-bit size taken from the image (%s) with no preceding bound: run time unrelated to the image size", origin))
+					if carrier != "" {
+						construct = "loop bounded by " + carrier
+					}
+					c.S.Bad(rule, construct, c.pos(iff.Pos()), fmt.Sprintf("a loop in %s that hashes or allocates runs up to a 64-bit size taken from the image (%s) with no preceding bound: run time unrelated to the image size", load.FuncName(f), origin))
 				}
 			}
 		}
